@@ -9,8 +9,8 @@ from hypothesis import strategies as st
 
 from checks.sctp_common import base_problems, session_classes
 from vlib.runner import Check, Family, Outcome
-from vlib.sctpsim import Session
-from vlib.strategies import fate_list, send_op, yielding
+from vlib.sctpsim import Session, chunk_types
+from vlib.strategies import bundling, fate_list, send_op, yielding
 
 ORDER = {"connecting": 0, "open": 1, "closing": 2, "closed": 3}
 
@@ -176,7 +176,7 @@ def _run_lifecycle(case: dict, flags: dict) -> Outcome:
     def after_ops_hook_install() -> None:
         # known-finding recognisers need two facts about the run (see KNOWN_FINDINGS.txt)
         def drop_tap(side: int, data: bytes) -> None:
-            if len(data) > 12 and data[12] == 130:
+            if 130 in chunk_types(data):
                 flags["reconfig_dropped"] = True
         s.link.drop_tap = drop_tap
         import aiortc.rtcsctptransport as S
@@ -377,7 +377,9 @@ CHECK = Check(
     ),
     families=[Family("programs", run_lifecycle, lifecycle_case, quick=4000, thorough=120000, min_shard=20),
               # the same programs over a transport whose send suspends (TURN channel bind / refresh)
-              Family("yielding-send", run_lifecycle, lambda tier: yielding(lifecycle_case(tier)), quick=1500, thorough=40000, min_shard=20)],
+              Family("yielding-send", run_lifecycle, lambda tier: yielding(lifecycle_case(tier)), quick=1500, thorough=40000, min_shard=20),
+              # ... and with a sender that bundles (DCEP OPEN + DATA, RE-CONFIG + SACK, ... in one packet)
+              Family("bundling", run_lifecycle, lambda tier: bundling(lifecycle_case(tier)), quick=1500, thorough=40000, min_shard=20)],
     floor=300,
     recognisers={
         "reconfig-not-retransmitted": lambda fam, case, out: out.kind == "close-incomplete" and bool(out.info.get("reconfig_dropped")),
